@@ -1749,7 +1749,12 @@ class UniqueIdShortNamespace(Namespace, metaclass=abc.ABCMeta):
                     # item is known to be a SubmodelElementList which supports __getitem__ because we're in
                     # the `is_submodel_element_list` branch, but mypy doesn't infer types based on isinstance checks
                     # stored in boolean variables.
-                    item = item.value[int(id_)]  # type: ignore
+                    index = int(id_)
+                    if index < 0:
+                        # list positions are non-negative (AASd-128); don't let Python's negative indexing silently
+                        # resolve to an element counted from the end of the list
+                        raise IndexError(f"Negative index {index}")
+                    item = item.value[index]  # type: ignore
                 else:
                     item = item._get_object(Referable, "id_short", id_)  # type: ignore[type-abstract]
             except ValueError as e:
